@@ -3,7 +3,7 @@
    duplicate, zero-length entries, long entries followed by short ones, ends up to one base past
    the chromosome (the writer does not check ends), one or several chromosomes. *)
 EXTENDS BigBedSpec, Json
-CONSTANTS MinItems, NC, L, MaxItems, MaxPerChrom, IPS, ZoomLists, EndSlack
+CONSTANTS AnyOrder, MinItems, NC, L, MaxItems, MaxPerChrom, IPS, ZoomLists, EndSlack
 VARIABLES input, cur, pos, nIn, done, ips, zl
 vars == <<input, cur, pos, nIn, done, ips, zl>>
 ZL == CASE ZoomLists = "a" -> {<<>>, <<2>>, <<3>>, <<2, 4>>}
@@ -18,11 +18,11 @@ NextChrom(c) == /\ ~done /\ (cur = 0 \/ nIn > 0) /\ Len(input) < MaxItems
                 /\ cur' = c /\ pos' = 0 /\ nIn' = 0 /\ UNCHANGED <<input, done, ips, zl>>
 Finish == /\ ~done /\ cur > 0 /\ nIn > 0 /\ Len(input) >= MinItems /\ done' = TRUE /\ UNCHANGED <<input, cur, pos, nIn, ips, zl>>
 Next == \/ \E s \in pos..(L - 1) : \E e \in s..(L + EndSlack) : AddEntry(s, e)
-        \/ \E c \in (cur + 1)..NC : NextChrom(c)
+        \/ \E c \in (IF AnyOrder THEN (1..NC) \ {input[i][1] : i \in 1..Len(input)} ELSE (cur + 1)..NC) : NextChrom(c)
         \/ Finish
 \* mechanism => abstract, at every complete input
 MechSummaryOK == done => SummaryOKB(input, MechSummary(input))
 MechZoomOK == done => ZoomsOKB(input, ModelZoomsB(input, zl))
-Emit == done => PrintT(<<"REPLAY", ToJson([items |-> input, ips |-> ips, zooms |-> zl, NC |-> NC, L |-> L,
+Emit == done => PrintT(<<"REPLAY", ToJson([items |-> input, ips |-> ips, zooms |-> zl, NC |-> NC, L |-> L, sort |-> IF AnyOrder THEN "start" ELSE "all",
                                           mz |-> ModelZoomsB(input, zl), msum |-> MechSummary(input)])>>)
 =============================================================================
